@@ -45,7 +45,7 @@ fn class_of(kind: u8) -> &'static str {
 pub fn check(rep: &Reporter) {
 	let thorough = rep.tier.thorough();
 	rep.set_rule(
-		"limits L = 40..260 in steps of 1 (thorough to 600, plus 2048/4096/10000) ∪ {1024, 65536}; for each L and each of 45 response shapes (sync result / async error-with-data / blocking result × ASCII / needs-escaping / 2-byte / 4-byte UTF-8 / control characters × id width 1 / 20 digits / string) every handler payload size whose unlimited reply is within L±3 (thorough ±6) bytes, plus 0 and a far-too-big one, over HTTP and WebSocket (TowerService), and for limits on a stride of 7 also through http::call_with_service_builder and ws::connect with a request limit above resp. below the response limit; batches of 1..4 (thorough 6) entries whose array length is L−2…L+2 (thorough ±4) with the adjustable entry at every position, all valid calls or with one other entry (last / middle / first) replaced by a non-request (`17`, an object without method); WebSocket subscribe calls whose response carries a subscription id of controlled width (response length L−2…L+2); plus the full 1-step sweep of MethodResponse::response and BatchResponseBuilder. Oracle: the reply of a server with the limit disabled; every frame on the wire is ≤ L bytes or one of the two fixed errors; the handler log is the same with and without the limit. Distinct by (L, shape, size, transport).",
+		"limits L = 40..260 in steps of 1 (thorough to 600, plus 2048/4096/10000) ∪ {1024, 65536}; for each L and each of 45 response shapes (sync result / async error-with-data / blocking result × ASCII / needs-escaping / 2-byte / 4-byte UTF-8 / control characters × id width 1 / 20 digits / string) every handler payload size whose unlimited reply is within L±3 (thorough ±6) bytes, plus 0 and a far-too-big one, over HTTP and WebSocket (TowerService), for limits on a stride (17, thorough 5) and sizes within L±1 also against Server::start over loopback TCP as HTTP/1.1, WebSocket and HTTP/2, and for limits on a stride of 7 also through http::call_with_service_builder and ws::connect with a request limit above resp. below the response limit; batches of 1..4 (thorough 6) entries whose array length is L−2…L+2 (thorough ±4) with the adjustable entry at every position, all valid calls or with one other entry (last / middle / first) replaced by a non-request (`17`, an object without method); WebSocket subscribe calls whose response carries a subscription id of controlled width (response length L−2…L+2); plus the full 1-step sweep of MethodResponse::response and BatchResponseBuilder. Oracle: the reply of a server with the limit disabled; every frame on the wire is ≤ L bytes or one of the two fixed errors; the handler log is the same with and without the limit. Distinct by (L, shape, size, transport).",
 	);
 	rep.assume("the 'fixed small too-big error itself' (-32008 / -32011) may exceed L, as the statement says");
 
@@ -136,6 +136,90 @@ pub fn check(rep: &Reporter) {
 			}
 		}
 	});
+
+	// ---- SRV-TCP: the same single calls against `Server::start` over loopback (the accept loop builds the per-connection
+	//      service itself), as HTTP/1.1, WebSocket and HTTP/2; limits on a stride, every shape, sizes within L±1
+	{
+		let twork: Vec<(u32, usize)> = lims.iter().filter(|l| **l <= 600 && **l % (if thorough { 5 } else { 17 }) == 3).flat_map(|l| (0..shapes.len()).map(move |s| (*l, s))).collect();
+		rep.extra("tcp_leg_limit_shape_pairs", json!(twork.len()));
+		par_for(rep, twork.len(), 2, srv::rt, |i, rt, local: &mut Local| {
+			let (l, si) = twork[i];
+			let (mi, ii, ki) = shapes[si];
+			let _e = rt.enter();
+			let ns: Vec<usize> = (0..=NMAX).filter(|n| (unl[&(mi, ii, ki, *n)].len() as i64 - l as i64).abs() <= 1).collect();
+			for n in ns {
+				let text = call_text(METHODS[mi], IDS[ii], KINDS[ki], n);
+				let want = &unl[&(mi, ii, ki, n)];
+				let mut obs: Vec<(&str, Vec<Vec<u8>>, Vec<String>)> = Vec::new();
+				let mut attempt = 0;
+				loop {
+					attempt += 1;
+					obs.clear();
+					let log: srv::InvLog = Default::default();
+					let r = rt.block_on(super::c01::tcp_roundtrips(text.as_bytes(), log, cfg(l), false));
+					let h2 = rt.block_on(async {
+						let log: srv::InvLog = Default::default();
+						let listener = std::net::TcpListener::bind("127.0.0.1:0").map_err(|e| e.to_string())?;
+						listener.set_nonblocking(true).map_err(|e| e.to_string())?;
+						let addr = listener.local_addr().map_err(|e| e.to_string())?;
+						let server = jsonrpsee_server::Server::builder().set_config(cfg(l)).build_from_tcp(listener).map_err(|e| e.to_string())?;
+						let handle = server.start(srv::std_module(log.clone()));
+						let mut conn = srv::h2_connect(addr).await?;
+						let req = http::Request::builder().method("POST").uri(format!("http://{addr}/")).header("content-type", "application/json").body(srv::FramesBody::single(text.as_bytes())).map_err(|e| e.to_string())?;
+						let out = tokio::time::timeout(std::time::Duration::from_secs(10), conn.request(req)).await.map_err(|_| "HTTP/2 request timed out".to_string())??;
+						let _ = handle.stop();
+						let handlers = log.lock().unwrap().clone();
+						Ok::<_, String>((out.body, handlers))
+					});
+					match (r, h2) {
+						(Ok((http, ws)), Ok((h2body, h2handlers))) if http.problem.is_none() && ws.problem.is_none() => {
+							obs.push(("tcp:http", http.replies, http.handlers));
+							obs.push(("tcp:ws", ws.replies, ws.handlers));
+							obs.push(("tcp:h2", if h2body.is_empty() { vec![] } else { vec![h2body] }, h2handlers));
+							break;
+						}
+						(r, h2) if attempt >= 3 => {
+							rep.machinery_error(format!("C08 SRV-TCP leg: {:?} / {:?}", r.err(), h2.err()));
+							break;
+						}
+						_ => std::thread::sleep(std::time::Duration::from_millis(50 * attempt)),
+					}
+				}
+				for (tname, replies, handlers) in &obs {
+					let case = json!({"engine":"ENUM","part":"single-tcp","limit": l, "transport": tname, "request": text, "unlimited_reply_len": want.len(),
+						"replies": replies.iter().map(|r| String::from_utf8_lossy(r).to_string()).collect::<Vec<_>>()});
+					let feat = format!("{}:{}", METHODS[mi], class_of(KINDS[ki]));
+					if replies.len() != 1 {
+						rep.violation(&format!("single:reply-count:{tname}:{feat}"), &format!("L={l}: {} replies to {text}", replies.len()), case.clone());
+						continue;
+					}
+					let got = &replies[0];
+					let rel = (want.len() as i64 - l as i64).clamp(-4, 4);
+					let class;
+					if want.len() <= l as usize {
+						class = "fits";
+						if got != want {
+							rep.violation(&format!("single:fitting-reply-changed:{tname}:{feat}:len=limit{rel:+}"), &format!("L={l}: the unlimited reply has {} bytes (≤ L) but the limited server sent {:?}", want.len(), String::from_utf8_lossy(got)), case.clone());
+						}
+					} else {
+						class = "too-big";
+						let v: Value = serde_json::from_slice(got).unwrap_or(Value::Null);
+						let idv: Value = serde_json::from_str(IDS[ii]).unwrap();
+						if v["error"]["code"] != -32008 || v["id"] != idv {
+							rep.violation(&format!("single:oversized-not-replaced:{tname}:{feat}:len=limit{rel:+}"), &format!("L={l}: the reply would have {} bytes (> L) but the server sent {:?}", want.len(), String::from_utf8_lossy(got)), case.clone());
+						}
+					}
+					if got.len() > l as usize && fixed_error(got).is_none() {
+						rep.violation(&format!("wire:frame-above-limit:{tname}:{feat}"), &format!("L={l}: a {}-byte reply was sent", got.len()), case.clone());
+					}
+					if *handlers != vec![METHODS[mi].to_string()] {
+						rep.violation(&format!("limit-changes-acceptance:{tname}:{feat}"), &format!("L={l}: handlers run {handlers:?}"), case.clone());
+					}
+					local.case_unique(&format!("single:{tname}:{class}"));
+				}
+			}
+		});
+	}
 
 	// ---- the low-level entry points (`http::call_with_service_builder`, `ws::connect`) with a request limit that differs
 	//      from the response limit: the same single-call sweep for ids of width 1 and limits on a stride of 7
